@@ -105,4 +105,14 @@ def containsSub (s sub : Bytes) : Bool :=
 
 def hasSuffix (suf s : Bytes) : Bool := suf.isSuffixOf s
 
+/-- `strings.Split(s, sep)` for a non-empty multi-byte separator -/
+def splitOnSubAux (sep : Bytes) : Nat → Bytes → Bytes → List Bytes
+  | 0, _, cur => [cur]
+  | _, [], cur => [cur]
+  | fuel + 1, b :: rest, cur =>
+    if sep.isPrefixOf (b :: rest) ∧ !sep.isEmpty then cur :: splitOnSubAux sep fuel ((b :: rest).drop sep.length) []
+    else splitOnSubAux sep fuel rest (cur ++ [b])
+
+def splitOnSub (s sep : Bytes) : List Bytes := splitOnSubAux sep (s.length + 1) s []
+
 end Dtail
